@@ -1194,6 +1194,48 @@ def _dimensionality_flag_and_discovery(ctx: Ctx):
                f"other kind is accepted although its references are not of one dimensionality", rel, f.line, sample=sorted(v["stored"]))
     # (b) discovery
     g = pkg.func("_datasets::SpectDataSet.find_utt_ids")
+    # by value first: the discovery interpreted over plain data (sa/pyinterp.py) against modelled sub-directories - feat {a, b, c, d},
+    # ali {a, b, d, x}, ref {a, c, d, y} - for every combination of sub-directories in use, with and without a subset and warnings: the
+    # ids are exactly those present in EVERY sub-directory in use (and in the subset, if one is given)
+    from sa.pyinterp import Obj as _ObjD, PyInterp as _PyID, Raised as _RaisedD
+    dirs = {"D/feat": {"a", "b", "c", "d"}, "D/ali": {"a", "b", "d", "x"}, "D/ref": {"a", "c", "d", "y"}}
+    by_value = None
+    try:
+        for ha in (True, False):
+            for hr in (True, False):
+                for subset in (set(), {"a", "b", "c", "y"}):
+                    for warn in (False, True):
+                        holder = {}
+
+                        def leaf(e, env):
+                            if isinstance(e, ast.Call):
+                                cn = call_name(e)
+                                it_ = holder["it"]
+                                if cn.endswith("_utts_in_dir") and e.args:
+                                    return set(dirs.get(it_.eval(e.args[0], env), set()))
+                                if cn == "os.path.join":
+                                    return "/".join(str(it_.eval(a_, env)) for a_ in e.args)
+                                if cn == "warnings.warn":
+                                    return "warned"
+                            return None
+                        it_ = _PyID(leaf=leaf)
+                        holder["it"] = it_
+                        self_ = _ObjD(has_ali=ha, has_ref=hr, data_dir="D", feat_subdir="feat", ali_subdir="ali", ref_subdir="ref", file_prefix="", file_suffix=".pt")
+                        got_ = it_.call_function(g.node, [self_, warn, set(subset)], {})
+                        want_ = set(dirs["D/feat"])
+                        for on_, d_ in ((ha, "D/ali"), (hr, "D/ref")):
+                            if on_:
+                                want_ &= dirs[d_]
+                        if subset:
+                            want_ &= subset
+                        if (not isinstance(got_, (set, frozenset)) or set(got_) != want_) and by_value is None:
+                            by_value = dict(has_ali=ha, has_ref=hr, subset=sorted(subset), found=sorted(got_) if isinstance(got_, (set, frozenset, list)) else str(got_), expected=sorted(want_))
+        col.ob("G12", "S11", f"{rel}::SpectDataSet.find_utt_ids::discovery-table", by_value is None,
+               (f"{by_value}: with feat {{a, b, c, d}}, ali {{a, b, d, x}}, ref {{a, c, d, y}} the ids found are not those present in every sub-directory in use "
+                f"(and in the subset): validation and the statistics then fail (or count) on a file that does not exist") if by_value else "", rel, g.line)
+        return
+    except (NotEvaluable, _RaisedD, KeyError, AttributeError, TypeError):
+        pass  # (outside the interpreted fragment: the structural rule below stands in)
     pmg = parent_map(g.node)
     inter = []
     for n in own_nodes(g.node):
